@@ -933,6 +933,8 @@ func genToken(r *rng, pr *Profile, qtype uint16) *plan.TokenSpec {
 		a.Compress = r.intn(4)
 	}
 	a.MaxNames = r.p(0.06)
+	a.Nested = r.p(0.06)
+
 	d := func() int64 { return r.i64(pr.DelayUs[0], pr.DelayUs[1]) }
 	switch {
 	case r.p(pr.FailActs):
